@@ -1,5 +1,6 @@
 SPECIFICATION Spec
-INVARIANT DialAuth ClientAuth ServerAuth HonestCompletes NameRoundTrip NameShapeRule NamesWithinAllowed
+INVARIANT DialAuth ClientAuth ServerAuth HonestCompletes NameRoundTrip NameShapeRule NamesWithinAllowed NoWeakIdentity
 CHECK_DEADLOCK FALSE
 CONSTANTS
   Keys = {"k1", "k2", "k3"}
+  WeakKeys = {"w1"}
